@@ -4,7 +4,7 @@
 //! multisets, order and record–target attachment are decided exactly. The reference folds are
 //! computed by the harness' own index arithmetic, never through `fold` itself.
 
-use linfa::dataset::{AsTargets, DatasetBase, Records};
+use linfa::dataset::{AsTargets, DatasetBase};
 use linfa::traits::{Fit, PredictInplace};
 use ndarray::{Array1, Array2, ArrayBase, ArrayView1, ArrayView2, Data, Dimension, Ix1, Ix2};
 use proptest::prelude::*;
@@ -703,9 +703,9 @@ pub fn property() -> Property {
             "when several injected failures coexist, any one of them may surface".into(),
         ],
         subs: vec![
-            prop_sub("cross_validate", 2500, 60000, |t: Tier| case_strategy(t.pick(40, 200), true), check_cv),
-            prop_sub("iter_fold", 2500, 60000, |t: Tier| case_strategy(t.pick(40, 200), false), check_iter_fold),
-            prop_sub("fold", 2500, 60000, |t: Tier| case_strategy(t.pick(40, 200), false), check_fold),
+            prop_sub("cross_validate", 20000, 300000, |t: Tier| case_strategy(t.pick(60, 200), true), check_cv),
+            prop_sub("iter_fold", 20000, 300000, |t: Tier| case_strategy(t.pick(60, 200), false), check_iter_fold),
+            prop_sub("fold", 20000, 300000, |t: Tier| case_strategy(t.pick(60, 200), false), check_fold),
             enum_sub("fold_all_nk", |t: Tier| all_nk(t.pick(40, 70)), check_fold),
             enum_sub("iter_fold_all_nk", |t: Tier| all_nk(t.pick(40, 70)), check_iter_fold),
             enum_sub("cross_validate_all_nk", |t: Tier| all_nk(t.pick(40, 70)), check_cv),
